@@ -25,6 +25,97 @@ def netip(a, b, c, d):
     return a | (b << 8) | (c << 16) | (d << 24)
 
 
+def leaked_attempts(chk, binp, sd, pol_keys, pol_val, skip_word, ws_ip, ws_port, local_ip):
+    """connects that pass the first hook and never reach the second (the socket call fails in between) leave their hand-over entry
+    behind; hundreds of them, more than the hand-over map holds, must not stop later connects from being recorded (the map evicts)"""
+    lines = [f"policy {k} {pol_val}" for k in pol_keys] + [f"skip {skip_word}"]
+    for i in range(260):
+        pid = 1000 + i
+        lines.append(f"c4 {(pid << 32) | pid} {(100 << 32) | 1000} {ws_ip} {bswap16(ws_port)} {TCP}")
+    pid, uid, gid, lport = 5000, 33, 7, 40123
+    lines.append(f"c4 {(pid << 32) | pid} {(gid << 32) | uid} {ws_ip} {bswap16(ws_port)} {TCP}")
+    proc = subprocess.Popen([SIM], stdin=subprocess.PIPE, stdout=subprocess.PIPE, text=True, bufsize=1)
+    out = []
+    for l in lines:
+        proc.stdin.write(l + "\n"); proc.stdin.flush()
+        out.append(proc.stdout.readline().strip())
+    _, v, nip, nport = out[-1].split(" ")
+    proc.stdin.write(f"tc {(pid << 32) | pid} {(gid << 32) | uid} 2 {nip} {nport} {lport}\n"); proc.stdin.flush()
+    proc.stdout.readline()
+    proc.stdin.write("dump\n"); proc.stdin.flush()
+    dump = proc.stdout.readline().strip()
+    proc.stdin.close(); proc.wait()
+    chk.case(nontrivial_key=("leaked-attempts", 260))
+    chk.count("leaked_attempt_schedules")
+    ent = None
+    for e in dump.split(" | ")[0].split(" ")[1:]:
+        k, val = e.strip("[]").split("->")
+        if k == f"{TCP},{lport}":
+            ent = val
+    desc = {"schedule": "260 connects to WireServer fail between the two hooks, then one connect by uid 33 / gid 7 / pid 5000 completes",
+            "redirected_to": [int(nip), int(nport)]}
+    redirected = (int(nip), int(nport)) == (local_ip, bswap16(LOCAL_PORT))
+    if not redirected:
+        chk.violation("connect redirected iff (destination protected and caller not the agent) does not hold", desc, expected=True, observed=False)
+    elif ent is None:
+        chk.violation("a redirected connect was left without an audit record after many connects had failed between the hooks", desc,
+                      expected="a record for (TCP, %d)" % lport, observed=dump.split(" | ")[0][:200])
+    else:
+        rc, so, se = vlib.run_harness(binp, "ebpf", "dec " + " ".join(ent.split(",")) + "\n", env={"VERIF_OUT": sd + "/o2.txt"}, cwd=sd)
+        dec = open(sd + "/o2.txt").read().strip()
+        a, b, c, d = [(ws_ip >> s_) & 0xff for s_ in (0, 8, 16, 24)]
+        want = "%d %d %d %d.%d.%d.%d %d" % (uid, pid, 0, a, b, c, d, ws_port)
+        if dec != want:
+            chk.violation("audit record does not state the true caller / original destination", desc, expected=want, observed=dec)
+
+
+def attach_point(chk, binp, sd, rng):
+    """where the connect hook is attached: the real cgroup2 mount lookup run against stand-in `findmnt` programs (several mounts,
+    bind mounts of sub-directories listed after the boot-time mount, no mount, failing / garbled output, no findmnt at all)"""
+    import json
+    names = ["/sys/fs/cgroup", "/sys/fs/cgroup/unified", "/run/containers/c1/cgroup", "/var/lib/kubelet/pods/p/cgroup", "/mnt/cg 2",
+             "/sys/fs/cgroup/system.slice/x.service"]
+    cases = []
+    for k in range(0, 5):
+        for _ in range(3 if k else 1):
+            ms = [names[0] if rng.chance(1, 2) else names[1]] + [rng.pick(names[2:]) for _ in range(max(0, k - 1))] if k else []
+            cases.append(("listed", ms, 0))
+    cases += [("listed", [names[2], names[0]], 0), ("listed", [names[0], names[5], names[2]], 0)]
+    cases += [("failed", [names[0]], 1), ("failed", [names[0], names[2]], 32), ("garbled", [], 0), ("absent", [], 0), ("empty-output", [], 1)]
+    lines, model = [], []
+    for i, (kind, ms, rc) in enumerate(cases):
+        bindir = os.path.join(sd, "fm%d" % i)
+        os.makedirs(bindir, exist_ok=True)
+        doc = json.dumps({"filesystems": [{"target": t, "source": "cgroup2", "fstype": "cgroup2", "options": "rw,nosuid,nodev,noexec,relatime"}
+                                          for t in ms]}, indent=3)
+        if kind != "absent":
+            body = {"listed": doc, "failed": doc, "garbled": '{"filesystems": [ {"target": ', "empty-output": ""}[kind]
+            open(os.path.join(bindir, "out.json"), "w").write(body)
+            open(os.path.join(bindir, "findmnt"), "w").write("#!/bin/sh\n/bin/cat %s/out.json\nexit %d\n" % (bindir, rc))
+            os.chmod(os.path.join(bindir, "findmnt"), 0o755)
+        lines.append("cgmount " + bindir)
+        model.append("attach listed " + " ".join(t.encode().hex() for t in ms) if kind == "listed" else "attach failed")
+    rc_, so, se = vlib.run_harness(binp, "ebpf", "\n".join(lines) + "\n", env={"VERIF_OUT": sd + "/o3.txt"}, cwd=sd)
+    got = open(sd + "/o3.txt").read().split("\n")[:-1]
+    want = vlib.run_driver([m.strip() for m in model])
+    for (kind, ms, rc), g, w in zip(cases, got, want):
+        chk.case(nontrivial_key=("attach", kind, len(ms), tuple(ms[:1])))
+        chk.count("attach_lookups")
+        desc = {"findmnt": kind, "exit": rc, "mounts_listed": ms}
+        if g != w:
+            chk.disagreement("attach", desc, w, g)
+        if kind == "listed" and len(ms) > 1 and ms[0] in names[:2] and all(t not in names[:2] for t in ms[1:]):
+            chk.count("attach_root_listed_first")
+            # the boot-time mount of the whole hierarchy is listed first, mounts of sub-directories after it: a hook attached
+            # anywhere else never runs for a process outside that sub-directory
+            if g != "ok " + ms[0].encode().hex():
+                chk.violation("the connect hook is attached below the root of the cgroup hierarchy: connects by processes outside that "
+                              "cgroup are neither redirected nor recorded", desc, expected=ms[0],
+                              observed=(bytes.fromhex(g[3:]).decode() if g.startswith("ok ") else g))
+    if len(got) != len(cases):
+        chk.broken.append({"kind": "harness", "name": "attach lookups", "why": "%d answers for %d lookups: %s" % (len(got), len(cases), se[-300:])})
+
+
 def run(chk):
     rng = vlib.Rng(chk.seed)
     chk.prove()
@@ -191,6 +282,8 @@ def run(chk):
                         chk.violation("audit record does not state the true caller / original destination", desc, expected=want, observed=got.get(key))
                 if not should and key in got and completed:
                     chk.violation("a record was produced for a connect that must be left untouched", desc, observed=got.get(key))
+    leaked_attempts(chk, binp, sd, pol_keys, pol_val, skip_word, ws_ip, ws_port, local_ip)
+    attach_point(chk, binp, sd, rng)
     shutil.rmtree(sd, ignore_errors=True)
     chk.sample({"ops": model_in[:8], "sim": sim_out[:8]})
     if chk.counts.get("uid_ne_gid", 0) == 0 or chk.counts.get("records_expected", 0) == 0:
@@ -201,5 +294,6 @@ def run(chk):
                             "ebpf_cgroup.c runs in user space against a simulator of the documented helper/map semantics with the exact arrays "
                             "the real Rust encoders produce; audit values decoded by the real Rust decoder")
     chk.assumptions += ["BPF helper/map semantics as documented (bpf-helpers(7)); verifier acceptance, attach points and real LRU eviction are the kernel's",
+                        "the first cgroup2 mount findmnt lists is the boot-time mount of the whole hierarchy (attach theorems hook_runs_for_every_process)",
                         "tcp_connect's kprobe runs after cgroup/connect4 of the same syscall on the same thread",
                         "hook H4's audit_entry() repeats the five-field mapping of BpfObject::lookup_audit (which needs a loaded BPF object)"]
